@@ -76,15 +76,42 @@ static void setup_calls() {
         }
 }
 
+// buffers of 4 GiB and more (address space only: MAP_NORESERVE, a few pages touched): counts that pass through a 32-bit variable show here
+#include <sys/mman.h>
+static void giant_buffers() {
+    const size_t SZ = ((size_t)1 << 32) + 65536;
+    uint8_t *mem = (uint8_t *)mmap(nullptr, SZ, PROT_READ | PROT_WRITE, MAP_PRIVATE | MAP_ANONYMOUS | MAP_NORESERVE, -1, 0);
+    if (mem == MAP_FAILED) { vp::stats().notes["giant_buffers"] = "mmap of 4 GiB + 64 KiB failed: skipped"; return; }
+    for (size_t rest : {((size_t)1 << 32), ((size_t)1 << 32) + 1, ((size_t)1 << 32) + 3, ((size_t)1 << 32) - 1}) for (size_t off : {(size_t)0, (size_t)7}) {
+        std::string rep = vp::fmt("giant %zu %zu\n", rest, off);
+        vp::CaseScope scope([&] { return rep; });
+        ByteBuffer b;
+        if (byte_buffer_set(&b, mem, off + rest + 16, off + rest, off) != 0) { vp::fail("giant:set-refused", "valid set-up refused", rep); continue; }
+        for (size_t i = 0; i < 32; i++) mem[off + i] = (uint8_t)(0x41 + i);
+        vp::count(); vp::nontrivial(vp::mix(rest, off + 600)); vp::cls("buffer-of-4GiB-and-more");
+        if (byte_buffer_rest(&b) != rest || byte_buffer_avail(&b) != 16) { vp::fail("giant:query", "rest/avail of a buffer beyond 4 GiB", rep); continue; }
+        uint8_t dst[16]; memset(dst, 0xee, sizeof dst);
+        ssize_t r = byte_buffer_consume_at_most(&b, dst, 10);
+        if (r != 10 || memcmp(dst, mem + off, 10) != 0 || dst[10] != 0xee || b.offset != off + 10) { vp::fail("giant:atmost", vp::fmt("consume_at_most(10) with %zu unread octets returned %zd, offset %zu", rest, r, b.offset), rep); continue; }
+        int rc = byte_buffer_consume(&b, dst, 5);
+        if (rc != 0 || memcmp(dst, mem + off + 10, 5) != 0 || b.offset != off + 15) { vp::fail("giant:consume", vp::fmt("consume(5) returned %d, offset %zu", rc, b.offset), rep); continue; }
+        uint8_t add[16]; memset(add, 0x77, sizeof add);
+        if (byte_buffer_add(&b, add, 16) != 0 || b.used != off + rest + 16 || mem[off + rest] != 0x77 || mem[off + rest + 15] != 0x77) { vp::fail("giant:add", "add of 16 octets into exactly 16 free octets behind 4 GiB", rep); continue; }
+        if (byte_buffer_add(&b, add, 1) >= 0) { vp::fail("giant:add-accepted-without-space", "add into a full buffer accepted", rep); continue; }
+        if (byte_buffer_consume(&b, dst, b.used - b.offset + 1) >= 0) { vp::fail("giant:consume-accepted-without-data", "consume of one more than the unread octets accepted", rep); continue; }
+    }
+    munmap(mem, SZ);
+}
 static void run() {
     auto &a = vp::args();
     size_t maxsize = a.thorough() ? 5 : 4;
     g_maxdepth = a.thorough() ? 5 : 4;
     vp::stats().rule = vp::fmt("enum: every op sequence of length <= %zu over add/consume/consume_at_most (operand 0..size+1; consume/at-most also with lengths at the top of size_t), rewind, reset, clear, repeat, query, refused set-up calls on the buffer in use (5 kinds of invalid arguments), adds whose source lies in the buffer's own memory "
-                               "from every valid (size<=%zu, used, offset) initial state; every set/use/space argument combination",
+                               "from every valid (size<=%zu, used, offset) initial state; every set/use/space argument combination; buffers with 2^32-1 .. 2^32+3 unread octets (address space only)",
                                g_maxdepth, maxsize);
     vp::stats().exhaustive = true;
     if (a.shard == 0) setup_calls();
+    if (a.shard == 1 % a.nshards) giant_buffers();
     // initial states are dealt round-robin to the shards
     unsigned idx = 0;
     vp::CaseScope scope([] { return serialise(g_case); });
@@ -107,6 +134,7 @@ static bool replay(const std::string &text) {
         setup_calls();   // tiny: just redo the whole family
         return vp::stats().failures.empty();
     }
+    if (!ls.empty() && ls[0].rfind("giant", 0) == 0) { giant_buffers(); return vp::stats().failures.empty(); }
     Case c;
     if (!parse(text, c)) { fprintf(stderr, "unparsable replay\n"); return false; }
     vp::CaseScope scope([&] { return serialise(c); });
